@@ -54,7 +54,14 @@ def run_property(prop: str, tier: str, repo: str, seed: int = 0, only_rules=None
             if counts.get(r, 0) < fl:
                 out.floors_missing.append("%s: %d instance(s) found, floor %d" % (r, counts.get(r, 0), fl))
         if out.floors_missing:
-            out.error = "anchor(s) below the confirmed floor: " + "; ".join(out.floors_missing)
+            # a floor guards against a *vacuous pass*.  When another rule of the property reports a definite, unlisted violation
+            # on the same tree, that report stands (exit 1); the missing instances are mentioned, not turned into exit 2.
+            from .report import load_known as _lk
+            new_v, _ = out.violations(_lk())
+            if new_v:
+                out.floor_note = "anchor(s) below the confirmed floor (not fatal next to a definite violation): " + "; ".join(out.floors_missing)
+            else:
+                out.error = "anchor(s) below the confirmed floor: " + "; ".join(out.floors_missing)
         if not rules_run:
             out.error = "no rule registered for property %s" % prop
     except AnalysisError as e:
